@@ -1133,6 +1133,143 @@ func (c *Ctx) FanLimit(rule string) []report.Obligation {
 	return out
 }
 
+// FanSlot (C13, C19): the slot the limit adds for the waiting closure is only taken while that closure runs. A
+// return it takes because the context was cancelled (a select arm receiving from ctx.Done()) happens while the
+// function that set the limit may still be starting workers: from then on n + 1 of them fit. Such a return is
+// therefore preceded by a receive from a channel which that function closes after the last point where it can
+// start a worker (directly or through a callee that does).
+func (c *Ctx) FanSlot(rule string) []report.Obligation {
+	var out []report.Obligation
+	n := 0
+	var spawnsDeep func(f *ssa.Function, depth int) bool
+	spawnsDeep = func(f *ssa.Function, depth int) bool {
+		if f == nil || f.Blocks == nil || depth > 2 {
+			return false
+		}
+		if len(spawnsIn(f)) > 0 {
+			return true
+		}
+		for _, cs := range callSites(f, func(com *ssa.CallCommon) bool { return true }) {
+			if cal := cs.Common().StaticCallee(); cal != nil && c.P.InModule(cal) && spawnsDeep(cal, depth+1) {
+				return true
+			}
+		}
+		return false
+	}
+	for _, fn := range c.P.Funcs {
+		sls := callSites(fn, func(com *ssa.CallCommon) bool { return staticName(com) == errgroupSetLimit })
+		if len(sls) == 0 {
+			continue
+		}
+		group := sls[0].Common().Args[0]
+		for _, sp := range spawnsIn(fn) {
+			if !sameCell(sp.Group, group) || sp.Closure == nil || sp.MC == nil {
+				continue
+			}
+			cl := sp.Closure
+			// the cancellation arms of the closure's selects
+			for _, b := range cl.Blocks {
+				for _, in := range b.Instrs {
+					sel, ok := in.(*ssa.Select)
+					if !ok {
+						continue
+					}
+					for si, st := range sel.States {
+						call, isCall := st.Chan.(*ssa.Call)
+						if st.Dir != types.RecvOnly || !isCall || !call.Call.IsInvoke() || call.Call.Method.Name() != "Done" {
+							continue
+						}
+						// returns reached only through this arm
+						for _, rb := range cl.Blocks {
+							ret, isRet := rb.Instrs[len(rb.Instrs)-1].(*ssa.Return)
+							if !isRet {
+								continue
+							}
+							inArm := factHolds(rb, func(cond ssa.Value, val bool) bool {
+								bo, ok := cond.(*ssa.BinOp)
+								if !ok || bo.Op != token.EQL || !val {
+									return false
+								}
+								ex, ok := bo.X.(*ssa.Extract)
+								k, isK := constInt(bo.Y)
+								return ok && ex.Tuple == ssa.Value(sel) && ex.Index == 0 && isK && int(k) == si
+							})
+							if !inArm {
+								continue
+							}
+							n++
+							key := c.P.FuncID(cl) + " :: the waiting closure keeps its slot on cancellation until " + c.P.FuncID(fn) + " has stopped starting workers"
+							// a receive, before the return, from a channel of the starter
+							var gate ssa.Value
+							for _, b2 := range cl.Blocks {
+								for _, in2 := range b2.Instrs {
+									rcv, ok := in2.(*ssa.UnOp)
+									if !ok || rcv.Op != token.ARROW || !prog.InstrDominates(rcv, ret) {
+										continue
+									}
+									ch := rcv.X
+									if ld, isLd := ch.(*ssa.UnOp); isLd && ld.Op == token.MUL {
+										ch = ld.X
+									}
+									if fv, isFV := ch.(*ssa.FreeVar); isFV {
+										for i, f2 := range cl.FreeVars {
+											if f2 == fv && i < len(sp.MC.Bindings) {
+												gate = sp.MC.Bindings[i]
+											}
+										}
+									}
+								}
+							}
+							if gate == nil {
+								out = append(out, bad(rule, key, c.P.InstrPos(ret), "the closure returns as soon as the context is cancelled: the slot the limit reserves for it becomes a worker slot while "+c.P.FuncID(fn)+" may still be starting workers, so one more than the configured maximum can run at once"))
+								continue
+							}
+							// the starter closes that channel, and cannot start a worker afterwards
+							okClose, why := false, "the starter never closes the channel the closure waits for"
+							for _, cs := range callSites(fn, func(com *ssa.CallCommon) bool {
+								bi, isB := com.Value.(*ssa.Builtin)
+								return isB && bi.Name() == "close"
+							}) {
+								arg := cs.Common().Args[0]
+								if ld, isLd := arg.(*ssa.UnOp); isLd && ld.Op == token.MUL {
+									arg = ld.X
+								}
+								if arg != gate {
+									continue
+								}
+								if _, isDefer := cs.(*ssa.Defer); isDefer {
+									why = "the channel is closed by a deferred call, which runs after Wait"
+									continue
+								}
+								okClose, why = true, ""
+								fi := prog.Info(fn)
+								for _, cs2 := range callSites(fn, func(com *ssa.CallCommon) bool { return true }) {
+									starts := false
+									if staticName(cs2.Common()) == errgroupGo {
+										starts = true
+									} else if cal := cs2.Common().StaticCallee(); cal != nil && c.P.InModule(cal) && spawnsDeep(cal, 0) {
+										starts = true
+									}
+									if !starts {
+										continue
+									}
+									after := (cs2.Block() == cs.Block() && prog.InstrIndex(cs2) > prog.InstrIndex(cs)) || (cs2.Block() != cs.Block() && fi.Reaches(cs.Block(), cs2.Block()))
+									if after {
+										okClose, why = false, "a worker can still be started after the channel is closed ("+c.P.InstrPos(cs2)+")"
+									}
+								}
+							}
+							out = append(out, verdict(okClose, rule, key, c.P.InstrPos(ret), "returns on cancellation only after a receive from a channel that the starter closes after its last start", why))
+						}
+					}
+				}
+			}
+		}
+	}
+	out = append(out, report.Obligation{Rule: rule, Key: "inventory", Status: report.Discharged, Why: fmt.Sprintf("%d cancellation returns of waiting closures on limited errgroups", n)})
+	return out
+}
+
 // sameCell: the same SSA value, or two loads of the same local variable (a variable captured by a closure lives in
 // a cell and every use loads it).
 func sameCell(a, b ssa.Value) bool {
